@@ -48,6 +48,16 @@ type Peer struct {
 	AllowDupTag bool
 	Seen        []*wire.Msg
 	paused      bool // the peer does not read requests (its receive buffer fills up)
+	maxFrame    int  // the longest request frame received
+	// Iounit is what the peer puts into Ropen and Rcreate (0 = "use msize - 24", what the library's servers say).
+	Iounit uint32
+}
+
+// MaxFrame returns the length of the longest request frame the client has sent.
+func (p *Peer) MaxFrame() int {
+	p.mu.Lock()
+	defer p.mu.Unlock()
+	return p.maxFrame
 }
 
 // PauseReads makes the peer stop draining the client's requests (true) or resume (false).
@@ -95,6 +105,9 @@ func (p *Peer) reader() {
 				buf = buf[sz:]
 				p.mu.Lock()
 				dotu := p.dotu
+				if sz > p.maxFrame {
+					p.maxFrame = sz
+				}
 				p.mu.Unlock()
 				m, _, derr := wire.Decode(frame, dotu)
 				p.mu.Lock()
@@ -383,7 +396,7 @@ func (p *Peer) Answer(t *wire.Msg) *wire.Msg {
 		}
 	case wire.Topen, wire.Tcreate:
 		r.Qid = QidFor(t.Fid)
-		r.Iounit = 0
+		r.Iounit = p.Iounit
 	case wire.Tread:
 		r.Data = Data(t.Fid, t.Offset, int(t.Count))
 		r.Count = t.Count
